@@ -37,6 +37,11 @@ def leaves(T):
     out = [
         ("NamedType:a", lambda: T.NamedType("int", "builtins.int")),
         ("NamedType:b", lambda: T.NamedType("Cls", "pk.mod.Cls")),
+        # leaves that share their field values with terms of OTHER constructors (NamedSequenceType("Box", "pk.Box", ...),
+        # TypeVarType("U", ...), EnumType full_match): equality must tell the constructors apart or agree with the hash
+        ("NamedType:box", lambda: T.NamedType("Box", "pk.Box")),
+        ("TypeVarType:U-free", lambda: T.TypeVarType("U")),
+        ("NamedType:T", lambda: T.NamedType("T", "T")),
         ("UnknownType", lambda: T.UnknownType()),
         ("LiteralType:str", lambda: T.LiteralType(["a"])),
         ("LiteralType:int", lambda: T.LiteralType([7])),
